@@ -140,6 +140,7 @@ Section Proofs.
   Notation st_get := (st_get gstr keep).
   Notation st_set := (st_set gstr).
   Notation st_del := (st_del gstr).
+  Notation st_del_if := (st_del_if gstr).
   Notation put_waiting := (put_waiting gstr enc).
   Notation decode := (decode gstr dec decm).
   Notation now := (now gstr).
@@ -165,6 +166,15 @@ Section Proofs.
   Lemma mem_st_del_other : forall s cl x, x <> cl -> mem (st_del s cl) x = mem s x.
   Proof. intros. unfold Routing.st_del, m_del. cbn [Routing.mem]. rewrite (cell_eqb_neq x cl H). reflexivity. Qed.
 
+  Lemma mem_st_del_if_other : forall b s cl x, x <> cl -> mem (st_del_if b s cl) x = mem s x.
+  Proof. intros [|] s cl x H; [apply mem_st_del_other; exact H|reflexivity]. Qed.
+
+  Lemma mem_st_del_if_same : forall b s cl, mem (st_del_if b s cl) cl = mem s cl \/ mem (st_del_if b s cl) cl = None.
+  Proof. intros [|] s cl; [right; apply mem_st_del_same|left; reflexivity]. Qed.
+
+  Lemma clocks_st_del_if : forall b s cl, now (st_del_if b s cl) = now s /\ bnow (st_del_if b s cl) = bnow s.
+  Proof. intros [|] s cl; split; reflexivity. Qed.
+
   Lemma some_neq : forall (a b : cell), Some a <> Some b -> b <> a.
   Proof. intros a b H K. apply H. subst. reflexivity. Qed.
 
@@ -178,7 +188,7 @@ Section Proofs.
     - destruct (is_nil t); [reflexivity|].
       destruct (st_get s _) as [v|]; [|reflexivity].
       destruct (decode v) as [r0| |]; try reflexivity.
-      destruct (w_expires r0 <? now s); [|reflexivity]. cbn [fst]. apply mem_st_del_other. apply some_neq. exact Hd.
+      destruct (w_expires r0 <? now s); [|reflexivity]. cbn [fst]. apply mem_st_del_if_other. apply some_neq. exact Hd.
     - destruct (is_nil t); [reflexivity|]. cbn [fst]. apply mem_st_del_other. apply some_neq. exact Hs.
     - reflexivity.
     - cbn [fst]. apply mem_st_set_other. apply some_neq. exact Hs.
@@ -198,8 +208,8 @@ Section Proofs.
       destruct (decode v) as [r0| |]; try (left; reflexivity).
       destruct (w_expires r0 <? now s); [|left; reflexivity]. cbn [fst].
       destruct (cell_eqb cl (cell_of c n (wait_key c t))) eqn:E.
-      + apply cell_eqb_iff in E. subst. right. apply mem_st_del_same.
-      + left. apply mem_st_del_other. intro K. subst. rewrite cell_eqb_refl in E. discriminate.
+      + apply cell_eqb_iff in E. subst. apply mem_st_del_if_same.
+      + left. apply mem_st_del_if_other. intro K. subst. rewrite cell_eqb_refl in E. discriminate.
     - (* remove *)
       unfold Routing.step. destruct (is_nil t); [left; reflexivity|]. cbn [fst].
       destruct (cell_eqb cl (cell_of c n (wait_key c t))) eqn:E.
@@ -216,7 +226,8 @@ Section Proofs.
     - destruct (is_nil t); [cbn [fst]; repeat split; lia|].
       destruct (st_get s _) as [v|]; [|cbn [fst]; repeat split; lia].
       destruct (decode v) as [r0| |]; try (cbn [fst]; repeat split; lia).
-      destruct (w_expires r0 <? now s); cbn [fst Routing.st_del Routing.now Routing.bnow]; repeat split; lia.
+      destruct (w_expires r0 <? now s); [|cbn [fst]; repeat split; lia].
+      cbn [fst]. destruct (clocks_st_del_if (c_del_expired c) s (cell_of c n (wait_key c t))) as [A B]. rewrite A, B. repeat split; lia.
     - destruct (is_nil t); cbn [fst Routing.st_del Routing.now Routing.bnow]; repeat split; lia.
     - cbn [fst Routing.now Routing.bnow]. split; [lia|]. split; [lia|]. intro K. discriminate.
     - cbn [fst Routing.st_set Routing.now Routing.bnow]. repeat split; lia.
@@ -279,17 +290,17 @@ Section Proofs.
     mem s cl = Some (mkE (put_waiting c cl r) dl) -> dec (enc r) = Some r ->
     (step c s (OLookup n t) = (s, ROk r) /\ now s <= w_expires r)
     \/ step c s (OLookup n t) = (s, RNotFound)
-    \/ (step c s (OLookup n t) = (st_del s cl, RExpired) /\ w_expires r < now s).
+    \/ (step c s (OLookup n t) = (st_del_if (c_del_expired c) s cl, RExpired) /\ w_expires r < now s).
   Proof.
     intros c s n t r dl Ht cl Hm Hc. unfold Routing.step. rewrite (is_nil_false t Ht). fold cl.
     unfold Routing.st_get. rewrite Hm. cbn [e_dl e_val].
     assert (K : forall v, v = put_waiting c cl r ->
       (match decode v with
-       | DOk r0 => if w_expires r0 <? now s then (st_del s cl, RExpired) else (s, ROk r0)
+       | DOk r0 => if w_expires r0 <? now s then (st_del_if (c_del_expired c) s cl, RExpired) else (s, ROk r0)
        | DDecodeErr => (s, RDecodeErr) | DBadType => (s, RBadType) end = (s, ROk r) /\ now s <= w_expires r)
       \/ (match decode v with
-       | DOk r0 => if w_expires r0 <? now s then (st_del s cl, RExpired) else (s, ROk r0)
-       | DDecodeErr => (s, RDecodeErr) | DBadType => (s, RBadType) end = (st_del s cl, RExpired) /\ w_expires r < now s)).
+       | DOk r0 => if w_expires r0 <? now s then (st_del_if (c_del_expired c) s cl, RExpired) else (s, ROk r0)
+       | DDecodeErr => (s, RDecodeErr) | DBadType => (s, RBadType) end = (st_del_if (c_del_expired c) s cl, RExpired) /\ w_expires r < now s)).
     { intros v Hv. subst v. rewrite (decode_put c cl r Hc). destruct (w_expires r <? now s) eqn:E.
       - right. split; [reflexivity|apply N.ltb_lt; exact E].
       - left. split; [reflexivity|apply N.ltb_ge; exact E]. }
@@ -337,7 +348,8 @@ Section Proofs.
         destruct (lookup_cell_sound c s n t r dl Ht Hm Hc) as [[K _]|[K|[K L]]].
         * rewrite K. exact Hm.
         * rewrite K. exact Hm.
-        * exfalso. rewrite K in A, B, Hn. cbn [fst] in A, B, Hn. unfold Routing.st_del in A at 1. cbn [Routing.now] in A. lia.
+        * exfalso. rewrite K in A, Hn. cbn [fst] in A, Hn.
+          destruct (clocks_st_del_if (c_del_expired c) s (cell_of c n (wait_key c t))) as [A' _]. rewrite A' in A. lia.
       + rewrite step_mem_frame; [exact Hm|exact Ho|].
         cbn [may_del]. rewrite En. intro K. injection K as K. rewrite K in E. rewrite cell_eqb_refl in E. discriminate.
     - rewrite step_mem_frame; [exact Hm|exact Ho|]. rewrite Ed. discriminate.
